@@ -14,22 +14,15 @@ Import ListNotations.
    utilities, every node including the root, every start environment — on well-formed documents
    without zero-width nodes, with unique node ids, the mentioned fields labelling at most one
    child ([doc_ok]), for rules without capturing meta variables ([rule_closed]; the property's
-   "variable-disjoint sub-patterns" restriction, strengthened), and nthChild offsets |B| <= 2^30
-   (H1: beyond it FunctionalPosition::is_matched overflows i32, see the refutation below and C11) *)
-Theorem C05_eval_iff_sem_partial :
+   "variable-disjoint sub-patterns" restriction, strengthened) *)
+Theorem C05_eval_iff_sem_closed :
   forall c r n e fuel1 fuel2 res e' b,
     rule_closed r = true -> ctx_closed c = true -> doc_ok c r ->
-    rule_nth_bounded r = true -> ctx_nth_bounded c = true -> doc_small c ->
     eval fuel1 c (QRule r n) e = (EFound res, e') ->
     sem fuel2 c r n = Some b ->
     b = is_some res.
-Proof. exact SemProofs.C05_eval_iff_sem_partial. Qed.
-Print Assumptions C05_eval_iff_sem_partial.
-
-(* without H1 the statement is false of the faithful model: nthChild "n-2147483648" *)
-Theorem C05_eval_iff_sem_closed_refuted : ~ C05_eval_iff_sem_closed_stmt.
-Proof. exact SemProofs.C05_eval_iff_sem_closed_refuted. Qed.
-Print Assumptions C05_eval_iff_sem_closed_refuted.
+Proof. exact SemProofs.C05_eval_iff_sem_closed. Qed.
+Print Assumptions C05_eval_iff_sem_closed.
 
 (* non-vacuity: a relational ofRule on a concrete tree (the case behind the nthChild fix) *)
 Example C05_ofrule_relational_ex : True.
